@@ -856,7 +856,10 @@ def parse_tree_to_objgraph(
 
         # enter recursive visit of attributes only, if the class of the
         # object being processed is a meta class of the current meta model
-        if model_obj.__class__.__name__ in metamodel:
+        # (the class is looked up by its fully qualified name: a plain class
+        # name is only visible from the main grammar and the grammars it
+        # imports directly)
+        if getattr(model_obj, "_tx_fqn", model_obj.__class__.__name__) in metamodel:
             if hasattr(model_obj, "_tx_fqn"):
                 current_metaclass_of_obj = metamodel[model_obj._tx_fqn]
             else:
